@@ -1566,6 +1566,12 @@ spec(lean="redirect_tree", module="AlgoRedirect", file=_TU, func="redirect_tree"
      doc="`swcgeom/core/tree_utils.py::redirect_tree` on the columns `ids`, `pids`, `types` of the copied tree (node handles are row indices)")
 
 
+# further specs live one file per group in harness/algo_specs/*.py; each file is executed in THIS module's namespace (it calls `spec(...)` and may
+# extend MODULE_IMPORTS / MODULE_STRUCTS / STRUCTS / CLASS_INITS), in file-name order
+for _f in sorted((VERIF / "harness" / "algo_specs").glob("*.py")):
+    exec(compile(_f.read_text(), str(_f), "exec"), globals())
+
+
 def regenerate(modules=None):
     """rewrite Gen/<module>.lean for the given modules (default: all) from the current sources; returns failure messages"""
     fails = []
